@@ -66,7 +66,8 @@ def step (line : String) : String :=
           "violated: not symmetric"
         else if !isSubset a r || !isSubset b r then "violated: input not subset of result"
         else "ok"
-  | ["display", a] => withShape a fun a => hexOfString (display a)
+  | ["display", a] => withShape a fun a =>
+      if asciiKeys a then hexOfString (display a) else "unmodelled"
   | ["echo", a] => withShape a fun a => sexp a
   | ["inferdoc", h] =>
       match docOfHex h with
